@@ -315,6 +315,21 @@ func ruleAllocLock(c *Ctx, prefix string, ai *allocImpl) {
 		}
 		// a method that touches the bitmap through an escaping alias is out of reach: flag loads of the field other than as a receiver
 	}
+	// a bit set at construction is not an allocation: Free could not tell it from an outstanding
+	// block (it would release it), and the pool would report less capacity than it has
+	for _, ctor := range ai.Ctors {
+		eachInstr(ctor, func(in ssa.Instruction) {
+			call, ok := in.(*ssa.Call)
+			if !ok {
+				return
+			}
+			f := call.Call.StaticCallee()
+			if f == nil || f.Signature.Recv() == nil || namedOf(f.Signature.Recv().Type()) != pkgBitset+".BitSet" || !mutatingBitOps[f.Name()] {
+				return
+			}
+			c.R.bad(rule, fmt.Sprintf("%s constructor bitmap.%s", ai.Name, f.Name()), c.P.InstrPos(in), shortFn(ctor), fmt.Sprintf("the constructor marks bits with bitmap.%s: a bit set before any Allocate is indistinguishable from an outstanding block (Free releases it, a hint for it is refused, capacity shrinks)", f.Name()))
+		})
+	}
 	// geometry: the fields the index<->address conversions read, and the bitmap itself, are
 	// only written in constructors (on the fresh literal); any other field (a cursor, a
 	// counter) may change later, but only in a method of T with the mutex held exclusively
@@ -721,6 +736,13 @@ func ruleFree(c *Ctx, prefix string, ai *allocImpl) {
 				exitBad = append(exitBad, fmt.Sprintf("error return at %s after clearing a bit: a failed Free must leave every allocation intact", c.P.InstrPos(in)))
 			}
 			tst, _ := histFact(st, "bool", regexp.MustCompile(`^\(\*`+reQ(pkgBitset)+`\.BitSet\)\.Test\(\$0\.`+ai.Bitmap+`,`))
+			// the converse: "not outstanding" is answered only after the bit was found clear - a counter,
+			// a flag or any other shortcut refuses to free a block that is outstanding
+			if tst != 0 {
+				if r, ok := ex.ResolveDeep(st, ret.Results[0]).(*ssa.Alloc); ok && namedOf(r.Type()) == modPath+"/plugins/allocators.ErrDoubleFree" && len(exitBad) < 4 {
+					exitBad = append(exitBad, fmt.Sprintf("ErrDoubleFree is returned at %s on a path where the block's bit was not found clear (Test=%s): an outstanding block may be refused", c.P.InstrPos(in), tri(tst)))
+				}
+			}
 			if tst == 0 {
 				nDbl++
 				r := ex.ResolveDeep(st, ret.Results[0])
@@ -1138,7 +1160,20 @@ func mayLeaves(p *Program, v ssa.Value) []ssa.Value {
 		case *ssa.ChangeType:
 			walk(x.X, d+1)
 			return
+		case *ssa.TypeAssert:
+			walk(x.X, d+1)
+			return
+		case *ssa.MakeInterface:
+			walk(x.X, d+1)
+			return
+		case *ssa.ChangeInterface:
+			walk(x.X, d+1)
+			return
 		case *ssa.Extract:
+			if ta, ok := x.Tuple.(*ssa.TypeAssert); ok && x.Index == 0 {
+				walk(ta.X, d+1)
+				return
+			}
 			if call, ok := x.Tuple.(*ssa.Call); ok {
 				if f := call.Call.StaticCallee(); f != nil && FirstParty(f) && len(f.Blocks) > 0 {
 					rets(f, x.Index, d)
